@@ -63,6 +63,86 @@ class Queries:
         finally:
             shutil.rmtree(d, ignore_errors=True)
 
+    def check_many(self, items, seeds=3, timeout_s=None, jobs=None):
+        """Portfolio: every (name, constraints, value_terms) query is exported to SMT-LIB and given to `seeds` z3 processes with
+        different random seeds, all queries in parallel; the first definite answer of a query wins (z3's run time on these
+        non-linear-looking div/mod problems is heavy-tailed: the same query takes 2 s or 300 s depending on the seed).
+        Returns {name: (result, {term_str: value})}."""
+        import concurrent.futures as cf
+        import re
+        import threading
+        timeout_s = timeout_s or self.timeout_s
+        import sys
+        exe = os.path.join(sys.prefix, 'bin', 'z3')
+        if not os.path.exists(exe):
+            exe = shutil.which('z3-new') or shutil.which('z3')
+        d = tempfile.mkdtemp(prefix='verif-smt-', dir=os.environ.get('VERIF_SCRATCH') or None)
+        out = {}
+        lock = threading.Lock()
+        procs = {}
+        t0 = time.time()
+
+        def run(name, path, seed):
+            with lock:
+                if name in out:
+                    return
+            p = subprocess.Popen([exe, '-T:%d' % int(timeout_s), 'smt.random_seed=%d' % seed, 'sat.random_seed=%d' % seed, path],
+                                 stdout=subprocess.PIPE, stderr=subprocess.STDOUT, text=True)
+            with lock:
+                procs.setdefault(name, []).append(p)
+            try:
+                text, _ = p.communicate(timeout=timeout_s + 15)
+            except subprocess.TimeoutExpired:
+                p.kill()
+                return
+            lines = text.strip().splitlines()
+            if not lines or any('(error' in ln for ln in lines[:1]):
+                return
+            if lines[0] in ('sat', 'unsat'):
+                with lock:
+                    if name not in out:
+                        out[name] = (lines[0], ' '.join(lines[1:]), seed, time.time() - t0)
+                        for other in procs.get(name, []):
+                            if other is not p and other.poll() is None:
+                                other.kill()
+        try:
+            jobs_list = []
+            for name, constraints, terms in items:
+                s = z3.Solver()
+                s.add(*constraints)
+                text = s.to_smt2()
+                if terms:
+                    text += '\n(get-value (%s))\n' % ' '.join(t.sexpr() for t in terms)
+                path = os.path.join(d, '%d.smt2' % len(jobs_list))
+                with open(path, 'w') as f:
+                    f.write(text)
+                for seed in range(seeds):
+                    jobs_list.append((name, path, seed))
+            # interleave seeds so that every query gets its first seed early
+            jobs_list.sort(key=lambda j: j[2])
+            with cf.ThreadPoolExecutor(max_workers=jobs or os.cpu_count() or 4) as ex:
+                list(ex.map(lambda j: run(*j), jobs_list))
+        finally:
+            shutil.rmtree(d, ignore_errors=True)
+        results = {}
+        for name, constraints, terms in items:
+            r = out.get(name)
+            res = r[0] if r else 'unknown'
+            values = {}
+            if r and res == 'sat':
+                for mm in re.finditer(r'\((\S+) (\(- \d+\)|-?\d+)\)', r[1]):
+                    values[mm.group(1)] = int(mm.group(2).replace('(- ', '-').replace(')', ''))
+            self.n += 1
+            self.solver_s += r[3] if r else timeout_s
+            self.log.append(dict(query=name, result=res, seed=r[2] if r else None, s=round(r[3], 2) if r else None,
+                                 portfolio=seeds))
+            if res == 'unknown':
+                self.unknown += 1
+            elif res == 'sat':
+                self.sat.append((name, values))
+            results[name] = (res, values)
+        return results
+
     def result(self, counterexamples=(), detail=None, not_encodable=None):
         if not_encodable:
             return dict(status='UNKNOWN', queries=self.n, solver_s=self.solver_s, samples=self.samples,
